@@ -313,14 +313,24 @@ func main() {
 
 		// probes (fixed plans: known findings and regression cases)
 		pres := filepath.Join(pwork, "probes.json")
-		if out, err := runBin(bin, append([]string{"VERIF_MODE=probes", "VERIF_TIER=" + tier, "VERIF_OUT=" + pwork, "VERIF_RESULT=" + pres, "GORACE=halt_on_error=0 log_path=" + filepath.Join(pwork, "race-probes")}, ph.Env...), 10*time.Minute); err != nil {
+		if out, err := runBin(bin, append([]string{"VERIF_MODE=probes", "VERIF_TIER=" + tier, "VERIF_OUT=" + pwork, "VERIF_RESULT=" + pres, "GORACE=halt_on_error=0 log_path=" + filepath.Join(pwork, "race-probes")}, ph.Env...), 10*time.Minute); err != nil && !fileExists(pres) {
 			harness = "probes failed: " + err.Error() + "\n" + tail(out, 30)
 		} else if b, err := os.ReadFile(pres); err == nil {
-			var pr map[string]struct {
-				Key    string `json:"key"`
-				Detail string `json:"detail"`
+			var pr0 map[string]struct {
+				Key        string `json:"key"`
+				Detail     string `json:"detail"`
+				RaceKey    string `json:"race_key"`
+				RaceDetail string `json:"race_detail"`
 			}
-			json.Unmarshal(b, &pr)
+			json.Unmarshal(b, &pr0)
+			type pres struct{ Key, Detail string }
+			pr := map[string]pres{}
+			for n, v := range pr0 {
+				pr[n] = pres{v.Key, v.Detail}
+				if v.RaceKey != "" {
+					pr[n+"+race"] = pres{v.RaceKey, v.RaceDetail}
+				}
+			}
 			names := make([]string, 0, len(pr))
 			for n := range pr {
 				names = append(names, n)
@@ -341,7 +351,7 @@ func main() {
 					continue
 				}
 				if _, ok := byKey[r.Key]; !ok {
-					byKey[r.Key] = viol{r.Key, r.Detail, filepath.Join(pwork, "probe-"+n+".json"), 0}
+					byKey[r.Key] = viol{r.Key, r.Detail, filepath.Join(pwork, "probe-"+strings.TrimSuffix(n, "+race")+".json"), 0}
 				}
 			}
 		}
@@ -364,7 +374,7 @@ func main() {
 				e = append(e, "VERIF_SHRINK_RUNS=150", "GORACE=halt_on_error=0 log_path="+filepath.Join(pwork, "race-shrink"))
 			}
 			out, err := runBin(bin, e, 15*time.Minute)
-			if err != nil {
+			if err != nil && !fileExists(minPath) {
 				fmt.Printf("shrink failed (%v); reporting the unminimised plan\n%s\n", err, tail(out, 10))
 				minPath = v.plan
 			} else {
@@ -374,14 +384,14 @@ func main() {
 			var rk [2]string
 			var rh [2]string
 			for j := 0; j < 2; j++ {
-				rk[j], rh[j], _ = replayOnce(bin, ph.Race, minPath, pwork, j)
+				rk[j], rh[j], _ = replayWant(bin, ph.Race, minPath, pwork, j, k)
 			}
 			if rk[0] != k || rk[1] != k || rh[0] != rh[1] {
 				// fall back to the unminimised plan before giving up
 				if minPath != v.plan {
 					minPath = v.plan
 					for j := 0; j < 2; j++ {
-						rk[j], rh[j], _ = replayOnce(bin, ph.Race, minPath, pwork, j)
+						rk[j], rh[j], _ = replayWant(bin, ph.Race, minPath, pwork, j, k)
 					}
 				}
 				if rk[0] != k || rk[1] != k || rh[0] != rh[1] {
@@ -389,7 +399,7 @@ func main() {
 					continue
 				}
 			}
-			dst := filepath.Join(verif, "replays", id, fmt.Sprintf("%s-%d-%s.json", ph.Name, v.seed, rh[0]))
+			dst := filepath.Join(verif, "replays", id, fmt.Sprintf("%s-%d-%s-%s.json", ph.Name, v.seed, rh[0], safeName(k)))
 			b, _ := os.ReadFile(minPath)
 			os.WriteFile(dst, b, 0o644)
 			violations++
@@ -487,7 +497,14 @@ func main() {
 
 var replayEnv []string
 
+// replayOnce runs a plan in a fresh process. want is the violation class being
+// verified: the run counts as showing it whether it comes from the oracle or
+// from the race detector.
 func replayOnce(bin string, race bool, plan, dir string, j int) (key, hash, detail string) {
+	return replayWant(bin, race, plan, dir, j, "")
+}
+
+func replayWant(bin string, race bool, plan, dir string, j int, want string) (key, hash, detail string) {
 	rf := filepath.Join(dir, fmt.Sprintf("replay-%d-%d.json", time.Now().UnixNano(), j))
 	defer os.Remove(rf)
 	e := append([]string{"VERIF_MODE=replay", "VERIF_PLAN=" + plan, "VERIF_RESULT=" + rf}, replayEnv...)
@@ -507,11 +524,19 @@ func replayOnce(bin string, race bool, plan, dir string, j int) (key, hash, deta
 		return "harness/no-replay-result", "", fmt.Sprintf("%v\n%s", err, tail(out, 20))
 	}
 	var r struct {
-		Key    string `json:"key"`
-		Hash   string `json:"hash"`
-		Detail string `json:"detail"`
+		Key        string `json:"key"`
+		Hash       string `json:"hash"`
+		Detail     string `json:"detail"`
+		RaceKey    string `json:"race_key"`
+		RaceDetail string `json:"race_detail"`
 	}
 	json.Unmarshal(b, &r)
+	if want != "" && r.RaceKey == want {
+		return r.RaceKey, r.Hash, r.RaceDetail
+	}
+	if r.Key == "" && r.RaceKey != "" {
+		return r.RaceKey, r.Hash, r.RaceDetail
+	}
 	return r.Key, r.Hash, r.Detail
 }
 
@@ -528,6 +553,20 @@ func replayCmd(id, plan string) {
 	for _, p := range meta.Phases {
 		if strings.HasPrefix(name, p.Name+"-") {
 			ph = p
+		}
+	}
+	if pl, err := os.ReadFile(abs); err == nil {
+		// a replay file of a race violation belongs to the race phase
+		var hdr struct {
+			Key string `json:"violation_key"`
+		}
+		json.Unmarshal(pl, &hdr)
+		if strings.HasPrefix(hdr.Key, "race:") {
+			for _, p := range meta.Phases {
+				if p.Race {
+					ph = p
+				}
+			}
 		}
 	}
 	work := filepath.Join(verif, ".work", id+"-replay")
@@ -569,6 +608,25 @@ func replayCmd(id, plan string) {
 		os.Exit(1)
 	}
 }
+
+func safeName(k string) string {
+	var b strings.Builder
+	for _, r := range k {
+		switch {
+		case r >= 'a' && r <= 'z', r >= 'A' && r <= 'Z', r >= '0' && r <= '9', r == '-', r == '.':
+			b.WriteRune(r)
+		default:
+			b.WriteByte('_')
+		}
+	}
+	s := b.String()
+	if len(s) > 60 {
+		s = s[:60]
+	}
+	return s
+}
+
+func fileExists(p string) bool { _, err := os.Stat(p); return err == nil }
 
 func tail(s string, n int) string {
 	l := strings.Split(strings.TrimRight(s, "\n"), "\n")
